@@ -55,6 +55,8 @@ pub struct Script {
     pub stall_mid: Option<(usize, Duration)>,
     /// slow but steady: the response goes out in pieces of this many bytes, each followed by this pause
     pub dribble: Option<(usize, Duration)>,
+    /// the Content-Type header line of the response (None = application/ipp); "" = no Content-Type header at all
+    pub content_type: Option<&'static str>,
 }
 
 impl Script {
@@ -69,6 +71,7 @@ impl Script {
             stall_before_status: None,
             stall_mid: None,
             dribble: None,
+            content_type: None,
         }
     }
 }
@@ -228,7 +231,12 @@ pub fn write_response<S: Write>(s: &mut S, sc: &Script) -> bool {
     if let Some(d) = sc.stall_before_status {
         std::thread::sleep(d);
     }
-    let mut head = format!("HTTP/1.1 {} {}\r\nServer: vmc-peer\r\nContent-Type: application/ipp\r\n", sc.status, reason(sc.status));
+    let mut head = format!("HTTP/1.1 {} {}\r\nServer: vmc-peer\r\n", sc.status, reason(sc.status));
+    match sc.content_type {
+        None => head.push_str("Content-Type: application/ipp\r\n"),
+        Some("") => {}
+        Some(ct) => head.push_str(&format!("{}\r\n", ct)),
+    }
     match sc.framing {
         Framing::ContentLength => head.push_str(&format!("Content-Length: {}\r\n", sc.body.len())),
         Framing::Chunked => head.push_str("Transfer-Encoding: chunked\r\n"),
